@@ -212,7 +212,7 @@ def project(ctx, diffs):
 def jobs_for(ctx, mult=1, seed_shift=0):
     """list of (args, tag)"""
     spec = ctx.spec
-    scale = (spec.get("thorough_scale", 20) if ctx.tier == "thorough" else 1) * mult
+    scale = (spec.get("thorough_scale", 80) if ctx.tier == "thorough" else 1) * mult
     jobs = []
     k = 0
     for (prof, plans, ops, faults) in spec["profiles"]:
